@@ -736,3 +736,8 @@ if sys.argv and sys.argv[0].endswith("worker.py"):
         _warm_up()
     except Exception:   # noqa
         pass
+
+
+# the TRANSLATED kernels (Gen/Kernels.lean) are executed against the real kernels on cases derived from the ones above
+from checks.harness import genkernels  # noqa: E402
+genkernels.install(globals(), "C04")
